@@ -707,7 +707,8 @@ func (e *Engine) HasPeer(p peer.ID) bool {
 // request queue (this is later popped off by the workerTasks). Returns true
 // if the connection to the server must be closed.
 func (e *Engine) MessageReceived(ctx context.Context, p peer.ID, m bsmsg.BitSwapMessage) bool {
-	if m.Empty() {
+	// A full want-list without entries is not "empty": it says the peer wants nothing any more.
+	if m.Empty() && !m.Full() {
 		log.Infof("received empty message from %s", p)
 		return false
 	}
